@@ -213,7 +213,7 @@ theorem extract_any (env : Env) : ∀ (n : Nat) (body : List Node) (ctx : Ctx) (
     | includen _ => simp [fbody] at hb
 
 /-- `resolve_fills` that raises: only the capture list and the step counter may differ -/
-theorem resolveFills_err (env : Env) (n : Nat) (body : List Node) (ctx : Ctx) (w w' : World) (e : Err)
+theorem resolveFills_err_f (env : Env) (n : Nat) (body : List Node) (ctx : Ctx) (w w' : World) (e : Err)
     (hb : fbody body = true) (h : (resolveFills env n body ctx).run.run w = (.error e, w')) : ExtrW w w' := by
   cases n with
   | zero => simp only [resolveFills, run_throw] at h; rw [← snd_eq h]; exact ExtrW.refl w
@@ -235,6 +235,32 @@ theorem resolveFills_err (env : Env) (n : Nat) (body : List Node) (ctx : Ctx) (w
         · simp only [run_pure] at h; cases h
         · simp only [run_throw] at h; rw [← snd_eq h]; exact ⟨_, _, rfl⟩
 
+theorem resolveFills_err (env : Env) (n : Nat) (body : List Node) (ctx : Ctx) (w w' : World) (e : Err)
+    (hb : gbody body = true) (hc : ctxFree ctx = true)
+    (h : (resolveFills env n body ctx).run.run w = (.error e, w')) : ExtrW w w' := by
+  simp only [gbody, Bool.or_eq_true] at hb
+  rcases hb with hb | hb
+  · exact resolveFills_err_f env n body ctx w w' e hb h
+  · cases n with
+    | zero => simp only [resolveFills, run_throw] at h; rw [← snd_eq h]; exact ExtrW.refl w
+    | succ n =>
+      unfold resolveFills at h
+      cases body with
+      | nil => simp only [List.isEmpty_nil, ↓reduceIte, run_pure] at h; cases h
+      | cons nd rest =>
+        simp only [List.isEmpty_cons, Bool.false_eq_true, ↓reduceIte, run_bind, run_get, run_modify] at h
+        have hcE : ctxFree (ctx ++ [[(fillGenKey, Val.fillGen)]]) = true := ctxFree_push ctx _ hc (by simp [slotFreeKvs, slotFree])
+        rcases h1 : (renderNodes env n (nd :: rest) (ctx ++ [[(fillGenKey, Val.fillGen)]])).run.run ({ w with cap := [] } : World) with ⟨r1, w1⟩
+        obtain ⟨st, rfl⟩ := (xstmt_all env n).nodes (nd :: rest) _ _ r1 w1 hb hcE (isExtracting_push ctx) h1
+        rw [h1] at h
+        cases r1 with
+        | error e' => simp only at h; rw [← snd_eq h]; exact ⟨[], st, rfl⟩
+        | ok content =>
+          simp only [run_bind, run_get, run_modify] at h
+          split at h
+          · simp only [run_pure] at h; cases h
+          · simp only [run_throw] at h; rw [← snd_eq h]; exact ⟨_, _, rfl⟩
+
 structure EStmt (env : Env) (n : Nat) : Prop where
   nodes : ∀ nodes ctx w e w', tnodes nodes = true → ctxFree ctx = true → WInv w →
     (renderNodes env n nodes ctx).run.run w = (.error e, w') → Frame w w'
@@ -242,7 +268,7 @@ structure EStmt (env : Env) (n : Nat) : Prop where
     (renderFor env n x items i body ctx).run.run w = (.error e, w') → Frame w w'
   node : ∀ nd ctx w e w', tnode nd = true → ctxFree ctx = true → WInv w →
     (renderNode env n nd ctx).run.run w = (.error e, w') → Frame w w'
-  tag : ∀ name kwargs only dyn body ctx w e w', isDynName name = false → fbody body = true → ctxFree ctx = true → WInv w →
+  tag : ∀ name kwargs only dyn body ctx w e w', isDynName name = false → gbody body = true → ctxFree ctx = true → WInv w →
     (renderCompTag env n name kwargs only dyn body ctx).run.run w = (.error e, w') → Frame w w'
   impl : ∀ name kw fills o ctx w e w', isDynName name = false → ctxFree ctx = true → ctxFree o = true → slotFreeKvs kw = true →
     GoodFills fills → WInv w →
@@ -377,7 +403,7 @@ theorem estmt_slot (env : Env) (n : Nat) (ih : EStmt env n) :
       exact ih.nodes f.nodes c3 w e w' hgf.1 hc3 hw h
 
 theorem estmt_tag (env : Env) (n : Nat) (ih : EStmt env n) :
-    ∀ name kwargs only dyn body ctx w e w', isDynName name = false → fbody body = true → ctxFree ctx = true → WInv w →
+    ∀ name kwargs only dyn body ctx w e w', isDynName name = false → gbody body = true → ctxFree ctx = true → WInv w →
     (renderCompTag env (n + 1) name kwargs only dyn body ctx).run.run w = (.error e, w') → Frame w w' := by
   intro name kwargs only dyn body ctx w e w' hd hb hc hw h
   unfold renderCompTag at h
@@ -392,7 +418,7 @@ theorem estmt_tag (env : Env) (n : Nat) (ih : EStmt env n) :
     | some d =>
       simp only [hf] at h
       rcases bind_err _ _ _ _ _ h with hres | ⟨fills, w1, hres, h⟩
-      · obtain ⟨cp, st, rfl⟩ := resolveFills_err env n body ctx w w' e hb hres
+      · obtain ⟨cp, st, rfl⟩ := resolveFills_err env n body ctx w w' e hb hc hres
         exact frame_capsteps hw cp st
       · cases n with
         | zero => simp only [resolveFills, run_throw] at hres; cases hres
@@ -699,7 +725,7 @@ theorem estmt_all (env : Env) (hlib : GoodLib env) : ∀ n, EStmt env n
 
 /-- **A render of the fragment that raises — wherever, for whatever reason — disturbs nothing that was there before.** -/
 theorem tree_failure_frame (env : Env) (hlib : GoodLib env) (n : Nat) (name : Str) (kwargs : List (Str × Expr)) (only dyn : Bool)
-    (body : List Node) (ctx : Ctx) (w w' : World) (e : Err) (hd : isDynName name = false) (hb : fbody body = true)
+    (body : List Node) (ctx : Ctx) (w w' : World) (e : Err) (hd : isDynName name = false) (hb : gbody body = true)
     (hc : ctxFree ctx = true) (hw : WInv w)
     (h : (renderCompTag env n name kwargs only dyn body ctx).run.run w = (.error e, w')) : Frame w w' :=
   (estmt_all env hlib n).tag name kwargs only dyn body ctx w e w' hd hb hc hw h
